@@ -192,6 +192,11 @@ def _parent(rnd, used, nestable, small=False):
     cls = rnd.choice(['deg', 'sec', 'milli', 'milli'])
     s = _origin(rnd, (nr - 1) * lat_u // 1000, 324000000, cls)
     e = _origin(rnd, (nc - 1) * lon_u // 1000, 648000000, cls)
+    r = rnd.random()
+    if r < 0.05:
+        e = 648000000 - (nc - 1) * lon_u // 1000          # west limit exactly on the 180 degree meridian (+648000")
+    elif r < 0.10:
+        e = -648000000                                     # east limit exactly on the 180 degree meridian (-648000")
     sg = _mk(rnd, used, 'parent', 'NONE', s, e, lat_u, lon_u, nr, nc)
     sg['extent_class'] = cls
     return sg
